@@ -130,14 +130,93 @@ class StdoutBinaryProxy(io.BufferedIOBase):
         return self._b.write(b)
 
 
+# Environment of the current run (set by harness.run_sim): which compressed formats are written
+# through an external program, and the open() call that fails with EMFILE
+ENV = {"piped_exts": (), "emfile_at": None}
+_OPENS = [0]
+FIRED = {}
+
+
+def begin_run(env):
+    ENV["piped_exts"] = tuple(env.get("piped_exts") or ())
+    ENV["emfile_at"] = env.get("emfile_at")
+    _OPENS[0] = 0
+    FIRED.clear()
+
+
+class PipedWriter(io.BufferedIOBase):
+    """
+    A compressed output file written through an external compressor process (what xopen does
+    with threads > 0 for .xz/.zst, and for .gz/.bz2 when only pigz/pbzip2 can do it): the
+    process ends, and the file is complete, when *every* copy of the write end of its stdin
+    pipe is closed - including the copies that forked children inherited. close() therefore
+    waits, like PipedCompressionProgram.close() does in process.wait().
+    The compressor itself is a stub: the in-process codec of the same format.
+    """
+
+    def __init__(self, f, path, kernel):
+        super().__init__()
+        self._f = f
+        self._path = path
+        self._k = kernel
+        self.holders = []  # kernel tasks that inherited the pipe
+        self.name = getattr(f, "name", path)
+
+    def writable(self):
+        return True
+
+    def write(self, b):
+        if self.closed:
+            raise ValueError("write to closed file")
+        return self._f.write(b)
+
+    def flush(self):
+        if not self.closed:
+            self._f.flush()
+
+    def close(self):
+        if self.closed:
+            return
+        super().close()
+        from . import kernel as K
+
+        k = self._k
+        live = [t for t in self.holders if t.state is not K.DONE]
+        if live and K._CURRENT is k and not getattr(k, "_reaping", False):
+            try:
+                cur = k.current_task()
+            except K.HarnessError:
+                cur = None
+            if cur is not None:
+                k.probe("compressor_pipe_inherited_at_close")
+                k.yield_(lambda: all(t.state is K.DONE for t in self.holders), "wait-compressor", to_sim(self._path))
+        self._f.close()
+
+
 def sim_xopen(filename, mode="r", compresslevel=None, threads=None, **kwargs):
     """Replacement for the name `xopen` inside cutadapt.files."""
+    _OPENS[0] += 1
+    if ENV["emfile_at"] is not None and _OPENS[0] == ENV["emfile_at"]:
+        import errno
+
+        FIRED["emfile"] = FIRED.get("emfile", 0) + 1
+        raise OSError(errno.EMFILE, "Too many open files", filename if isinstance(filename, str) else None)
     if filename == "-":
         if "r" in mode:
             raise io.UnsupportedOperation("reading standard input is not modelled")
         proxy = StdoutBinaryProxy(_STDOUT_BUF)
         return io.TextIOWrapper(proxy, encoding="utf-8") if ("t" in mode or mode == "w") else proxy
-    return _xopen_mod.xopen(filename, mode, compresslevel=compresslevel, threads=0, **kwargs)
+    f = _xopen_mod.xopen(filename, mode, compresslevel=compresslevel, threads=0, **kwargs)
+    if mode == "wb" and threads != 0 and isinstance(filename, str) and filename.endswith(ENV["piped_exts"] or ("\0",)):
+        from . import kernel as K
+
+        k = K._CURRENT
+        if k is not None:
+            pw = PipedWriter(f, filename, k)
+            k.open_pipes.append(pw)
+            FIRED["piped_open"] = FIRED.get("piped_open", 0) + 1
+            return pw
+    return f
 
 
 class CapturedStdoutBuffer(io.BytesIO):
